@@ -51,7 +51,9 @@ type metaModel struct {
 	docs   map[uint32]map[string]any
 }
 
-func newMetaModel(s *metaSchema) *metaModel { return &metaModel{schema: s, docs: map[uint32]map[string]any{}} }
+func newMetaModel(s *metaSchema) *metaModel {
+	return &metaModel{schema: s, docs: map[uint32]map[string]any{}}
+}
 
 func (m *metaModel) liveIDs() []uint32 {
 	out := make([]uint32, 0, len(m.docs))
